@@ -225,7 +225,7 @@ namespace ZapVerif.C14
 set_option linter.unusedSimpArgs false
 open ZapVerif ZapVerif.GoMini ZapVerif.TransSweeten ZapVerif.Gen.TransSweeten
 
-theorem sweeten_iter_field (P : Par) (args : List Val) (skip : Val) (ev0 : List Val) (i : Nat) (seen : Bool) (acc : ResV)
+theorem sweetenFields_iter_field_matches_source (P : Par) (args : List Val) (skip : Val) (ev0 : List Val) (i : Nat) (seen : Bool) (acc : ResV)
     (t : Junk) (a f : Val) (hi : (i : Int) + 2 < 9223372036854775808)
     (hidx : indexVal (.list args) (.int i) = .ok a) (hf : P.asField a = some f)
     (rec : Stmt → State → GoMini.Out) (k : State → GoMini.Out) :
@@ -237,7 +237,7 @@ theorem sweeten_iter_field (P : Par) (args : List Val) (skip : Val) (ev0 : List 
   cases t <;>
     simp [sweetenFields_loop0, Stmt.lbody, Stmt.lpost, sAbs, Junk.env, Junk.set1, hidx, he, hw1]
 
-theorem sweeten_iter_err (P : Par) (args : List Val) (skip : Val) (ev0 : List Val) (i : Nat) (seen : Bool) (acc : ResV)
+theorem sweetenFields_iter_err_matches_source (P : Par) (args : List Val) (skip : Val) (ev0 : List Val) (i : Nat) (seen : Bool) (acc : ResV)
     (t : Junk) (a e : Val) (hi : (i : Int) + 2 < 9223372036854775808)
     (hidx : indexVal (.list args) (.int i) = .ok a) (hf : P.asField a = none) (he : P.asErr a = some e)
     (rec : Stmt → State → GoMini.Out) (k : State → GoMini.Out) :
@@ -254,7 +254,7 @@ theorem sweeten_iter_err (P : Par) (args : List Val) (skip : Val) (ev0 : List Va
     simp [sweetenFields_loop0, Stmt.lbody, Stmt.lpost, sAbs, Junk.env, Junk.set1, Junk.set2, hidx, h1, h2, hw1,
       diagV, nm_diag, msgMultiple_eq, List.append_assoc]
 
-theorem sweeten_iter_dangling (P : Par) (args : List Val) (skip : Val) (ev0 : List Val) (i : Nat) (seen : Bool) (acc : ResV)
+theorem sweetenFields_iter_dangling_matches_source (P : Par) (args : List Val) (skip : Val) (ev0 : List Val) (i : Nat) (seen : Bool) (acc : ResV)
     (t : Junk) (a : Val) (hlen : (args.length : Int) < 9223372036854775808) (hlast : i + 1 = args.length)
     (hidx : indexVal (.list args) (.int i) = .ok a) (hf : P.asField a = none) (he : P.asErr a = none)
     (rec : Stmt → State → GoMini.Out) (k : State → GoMini.Out) :
@@ -269,7 +269,7 @@ theorem sweeten_iter_dangling (P : Par) (args : List Val) (skip : Val) (ev0 : Li
     simp [sweetenFields_loop0, Stmt.lbody, Stmt.lpost, sAbs, Junk.env, Junk.set1, Junk.set2, hidx, h1, h2, hwl,
       diagV, nm_diag, msgOdd_eq, keyIgnored_eq, List.append_assoc]
 
-theorem sweeten_iter_pair (P : Par) (hcap : ∀ l : List Val, P.cap (.list l) = 0 → l = []) (args : List Val) (skip : Val)
+theorem sweetenFields_iter_pair_matches_source (P : Par) (hcap : ∀ l : List Val, P.cap (.list l) = 0 → l = []) (args : List Val) (skip : Val)
     (ev0 : List Val) (i : Nat) (seen : Bool) (acc : ResV)
     (t : Junk) (a v : Val) (hlen : (args.length : Int) < 9223372036854775808) (hnl : i + 1 < args.length)
     (hidx : indexVal (.list args) (.int i) = .ok a) (hidx2 : indexVal (.list args) (.int ((i : Int) + 1)) = .ok v)
@@ -353,14 +353,14 @@ theorem sweetenFields_loop_matches_source (P : Par) (hcap : ∀ l : List Val, P.
           execS (X P) (exec (X P) (fuel + m)) sweetenFields_loop0 σ := fun σ => by rw [← exec_succ]; rfl
       cases hf : P.asField a with
       | some f =>
-        rw [sweeten_iter_field P args skip ev0 pre.length seen acc t a f hi hidx hf, hrec]
+        rw [sweetenFields_iter_field_matches_source P args skip ev0 pre.length seen acc t a f hi hidx hf, hrec]
         have := ih (pre ++ [a]) r seen ⟨acc.fields ++ [f], acc.diags, acc.invalid⟩ (t.set1 f (.bool true)) fuel
           (by simpa using hargs) (by simp at hn; omega)
         simpa [sweepV_field P _ _ a f r hf, append_cons1] using this
       | none =>
         cases he : P.asErr a with
         | some e =>
-          rw [sweeten_iter_err P args skip ev0 pre.length seen acc t a e hi hidx hf he, hrec]
+          rw [sweetenFields_iter_err_matches_source P args skip ev0 pre.length seen acc t a e hi hidx hf he, hrec]
           have := ih (pre ++ [a]) r true
             (if seen then ⟨acc.fields, acc.diags ++ [diagV msgMultiple (errF e)], acc.invalid⟩
              else ⟨acc.fields ++ [errF e], acc.diags, acc.invalid⟩)
@@ -371,14 +371,14 @@ theorem sweetenFields_loop_matches_source (P : Par) (hcap : ∀ l : List Val, P.
           cases r with
           | nil =>
             have hlast : pre.length + 1 = args.length := by rw [hal]; simp
-            rw [sweeten_iter_dangling P args skip ev0 pre.length seen acc t a hlen' hlast hidx hf he]
+            rw [sweetenFields_iter_dangling_matches_source P args skip ev0 pre.length seen acc t a hlen' hlast hidx hf he]
             exact ⟨pre.length, seen, (t.set1 (.list []) (.bool false)).set2 (.list []) (.bool false),
               by simp [sweepV_dangling P _ _ a hf he, ResV.append]⟩
           | cons v r' =>
             have hnl : pre.length + 1 < args.length := by rw [hal]; simp
             have hidx2 : indexVal (.list args) (.int ((pre.length : Int) + 1)) = .ok v := by
               rw [← hargs]; exact indexVal_at1 pre a v r'
-            rw [sweeten_iter_pair P hcap args skip ev0 pre.length seen acc t a v hlen' hnl hidx hidx2 hf he, hrec]
+            rw [sweetenFields_iter_pair_matches_source P hcap args skip ev0 pre.length seen acc t a v hlen' hnl hidx hidx2 hf he, hrec]
             have := ih (pre ++ [a, v]) r' seen
               (match P.asStr a with
                | some s => ⟨acc.fields ++ [anyF s v], acc.diags, acc.invalid⟩
